@@ -8,10 +8,11 @@ na_reasons = {}
 p = os.path.join(ROOT, "not_applicable.json")
 if os.path.exists(p):
     na_reasons = json.load(open(p))
+claimed = set(open(os.path.join(ROOT, "claimed.txt")).read().split())
 checks, na = [], []
 for i in ids:
     c = props.get(i)
-    if not c or c.get("disabled"):
+    if not c or c.get("disabled") or i not in claimed:
         na.append({"property_id": i, "reason": na_reasons.get(i, "check not built yet in this session (see DESIGN.md section 5 for the planned PBT design)")})
         continue
     checks.append({
